@@ -387,3 +387,44 @@ Proof.
 Qed.
 
 End Sound.
+
+(* ---------- repeated compile calls on one builder ---------- *)
+
+Section SessionProofs.
+Variable F : bfacts.
+
+(* when write_to leaves the matrix where it is, a compile call changes nothing in the builder ... *)
+Lemma compile_preserves_builder : forall b total moff k, fst (compile_step F true b total moff k) = b.
+Proof. intros b total moff k. unfold compile_step. destruct (build_with F (bl_inp b)); reflexivity. Qed.
+
+(* ... so the outcome of a call does not depend on the calls made before it (idempotence of compile): whatever sinks the
+   earlier calls had, each call gives what it would give on the untouched builder *)
+Theorem session_idempotent : forall ks b total moff,
+  run_session F true b total moff ks = map (fun k => snd (compile_step F true b total moff k)) ks.
+Proof.
+  induction ks as [|k t IH]; intros b total moff; cbn [run_session map]; [reflexivity|].
+  rewrite compile_preserves_builder. rewrite IH. reflexivity.
+Qed.
+
+(* a builder that holds its matrix writes complete dictionaries only, and only into sinks that take all of it *)
+Lemma compile_step_complete : forall b total moff k d c,
+  bl_matrix_held b = true -> snd (compile_step F true b total moff k) = Ok (d, c) ->
+  c = true /\ build_with F (bl_inp b) = Ok d /\ total <= k.
+Proof.
+  intros b total moff k d c Hh H. unfold compile_step in H. destruct (build_with F (bl_inp b)) as [d'| |]; try discriminate.
+  rewrite Hh in H. cbn [orb snd] in H. destruct (k <? total) eqn:E; [discriminate|]. inversion H; subst.
+  apply Z.ltb_ge in E. split; [reflexivity|split; [reflexivity|exact E]].
+Qed.
+
+(* retry after any history of calls: success means the complete dictionary of a fresh build, never anything else *)
+Theorem retry_is_fresh_build : forall inp ks total moff k d c,
+  nth_error (run_session F true (fresh_builder inp) total moff (ks ++ [k])) (List.length ks) = Some (Ok (d, c)) ->
+  c = true /\ build_with F inp = Ok d /\ total <= k.
+Proof.
+  intros inp ks total moff k d c H. rewrite session_idempotent in H. rewrite map_app in H. cbn [map] in H.
+  rewrite nth_error_app2 in H by (rewrite map_length; apply Nat.le_refl).
+  rewrite map_length, Nat.sub_diag in H. cbn [nth_error] in H. inversion H as [H1].
+  exact (compile_step_complete (fresh_builder inp) total moff k d c eq_refl H1).
+Qed.
+
+End SessionProofs.
